@@ -173,6 +173,15 @@ func (e *Engine) msgTypeByName(name string) types.Type {
 	panic(execError{"unknown message type " + name})
 }
 
+func (e *Engine) tryMsgType(name string) (t types.Type) {
+	defer func() {
+		if r := recover(); r != nil {
+			t = nil
+		}
+	}()
+	return e.msgTypeByName(name)
+}
+
 func (e *Engine) marshalFn(t types.Type) (mar, unm string) {
 	so := e.sortOf(t)
 	mar = "mar_" + mangle(so)
